@@ -70,3 +70,16 @@ def run(cx):
     _run2(cx)
     SR.sm9_scalar(cx)
     SR.curve_predicates(cx)
+
+
+_run3 = run
+
+
+def run(cx):
+    from .. import rules_s as S
+    _run3(cx)
+    # mod_n_from_hash belongs to C16 (hash-to-range); everything else in the crate is field/scalar arithmetic
+    S.carry_chain(cx, 'A-CARRY', ('gm_sm9::',), 10, exclude=('mod_n_from_hash',))
+    fn = cx.fn('gm_sm9::fields::mod_n_mul', 'I-BARRETT')
+    if fn is not None:
+        S.barrett(cx, 'I-BARRETT', fn, cx.F)
